@@ -162,7 +162,15 @@ def h_response(c):
         if c.get(k) is not None:
             kw[k] = c[k]
     r = ComputeQSPResponse(adat, phis, **kw)
-    return {"pdat": enc(numpy.asarray(r["pdat"], dtype=complex)), "model": list(r["model"])}
+    now = enc(numpy.asarray(r["pdat"], dtype=complex))
+    # results of earlier calls in this process are kept alive (as a caller tabulating several responses would) and re-read
+    changed = [k for k, (obj, then) in enumerate(_HELD) if enc(numpy.asarray(obj, dtype=complex)) != then]
+    _HELD.append((r["pdat"], now))
+    del _HELD[:-6]
+    return {"pdat": now, "model": list(r["model"]), "held_changed": bool(changed)}
+
+
+_HELD = []
 
 
 def h_response_ipoly(c):
